@@ -52,6 +52,18 @@ def oracle(c, op, out, before, after, metrics_before):
         else:
             body = s.format()
             payload = body[len(s.content) + 2:] if s.content and body.startswith(s.content + "\n\n") else body
+            if isinstance(s, TableSection) and not getattr(s, "_is_pandas_df", False):
+                # "that section's content": the table the section holds, cell by cell (the recording PrettyTable of the harness
+                # renders a table as a token of its columns)
+                from .c14 import cellstr, colstr, token
+                from .c14 import wrap as wrap14
+
+                try:
+                    cols = [(colstr(k), [cellstr(v) for v in vs]) for k, vs in s.table.items()]
+                    if payload != wrap14(token(cols), bool(s.folded)):
+                        fails.append(f"table-content: table section {s.title!r} renders {payload[:200]!r}, its table holds {token(cols)[:200]!r}")
+                except Exception:
+                    pass
             if isinstance(s, PlotSection):
                 inner = payload[len("<details>\n<summary> Click to expand </summary>\n\n"):-len("\n\n</details>")] if s.folded else payload
                 if inner != f"![{s.alt_text or s.path}]({s.path})":
